@@ -7,6 +7,7 @@
 
 mod common;
 
+mod c01;
 mod c02;
 mod c02_conn;
 mod c03;
@@ -53,6 +54,7 @@ fn main() {
     common::install_panic_hook();
     let args = Args { tier, seed };
     let code = match argv[1].as_str() {
+        "C01" => c01::run(&args),
         "C02" => c02::run(&args),
         "C03" => c03::run(&args),
         "C04" => c04::run(&args),
@@ -93,6 +95,7 @@ fn replay(path: &str) -> i32 {
     println!("expected failure: {}", v["what"].as_str().unwrap_or(""));
     let r = &v["replay"];
     match prop {
+        "C01" => c01::replay(r),
         "C02" => c02::replay(r),
         "C03" => c03::replay(r),
         "C04" => c04::replay(r),
